@@ -229,16 +229,21 @@ def render(atoms, variant='p'):
 
 SCALING = ['assign_chain', 'call_chain', 'inherit_chain', 'diamonds', 'call_tree',
            'nested_containers', 'nested_closures', 'decorator_chain', 'import_chain',
-           'assign_diamonds', 'attr_diamonds', 'instance_tree'] + ['ring_' + k for k in KINDS]
+           'assign_diamonds', 'attr_diamonds', 'instance_tree'] \
+    + ['chain_' + k for k in KINDS] + ['ring_' + k for k in KINDS]
 
 
 def scaling(family, n):
     """-> {'files': {...}}; main.py ends with the probe lines `r.x` / `r.x.` where r is the
     name at the end of the chain and x the payload attribute of class K."""
     files = {}
-    if family.startswith('ring_'):
-        # one directed cycle through n nodes, every arc of the same kind (n = 1: a self loop)
-        atoms = tuple((i, (i + 1) % n, family[5:]) for i in range(n))
+    if family.startswith(('ring_', 'chain_')):
+        if family.startswith('ring_'):
+            # one directed cycle through n nodes, every arc of the same kind (n = 1: self loop)
+            atoms = tuple((i, (i + 1) % n, family[5:]) for i in range(n))
+        else:
+            # n arcs of the same kind in a row; node n carries the base definition
+            atoms = tuple((i, i + 1, family[6:]) for i in range(n))
         prog = render(atoms, 'p')
         files = prog['files']
         head = 'm0.n0' if prog['layout'] == 'mods' else 'n0'
